@@ -17,7 +17,7 @@ RULE = ("all (m,n) in 1..5 x 1..5 for every list-capable class (SO2, SE2, SO3, S
         "oracle (metamorphic): element i of the result = the same operator on single-valued operands holding left[i or 0] and "
         "right[i or 0]; m != n both > 1 => ValueError; per-value accessors / unary methods on M values = the single-valued "
         "call on each element. Non-trivial: m != n or both > 1.")
-RULE = RULE + probes.RULE_TEXT + (probes.AUG_TEXT if PROPERTY_ID in probes.AUG_PROPS else "") + probes.VARIANT_TEXT + probes.OWN_TEXT
+RULE = RULE + probes.RULE_TEXT + (probes.AUG_TEXT if PROPERTY_ID in probes.AUG_PROPS else "") + probes.VARIANT_TEXT + probes.OWN_TEXT + probes.EXTRA_RULES.get(PROPERTY_ID, "")
 ASSUMPTIONS = ["the single-valued operation is the reference: its correctness is decided by C02/C03/C05/C06, here only the broadcasting layer is judged",
                "eul()/rpy() of M poses: both the documented (M,3) and the implemented (3,M) layouts are accepted",
                "methods without a multi-value claim in docs or code (Quaternion.log/exp/matrix, angvec, n/o/a) are not called on sequences"]
